@@ -42,3 +42,5 @@ func Or(a, b bool) bool
 func Not(a bool) bool
 func Implies(a, b bool) bool
 func YAMLAssume(valid bool)
+func TestFileDir() string
+func TestFileBase() string
